@@ -91,7 +91,7 @@ def main(argv):
             v.violation('model/implementation disagreement on a %s case' % kinds[i],
                         {'class': 'c20-corr:' + kinds[i], 'kind': kinds[i], 'case': cases[i][:20000], 'source': texts[i][:3000],
                          'replay_args': m.group(1) if m else 'none', 'broken': 'correspondence Corr.C20.model_of'},
-                        no_failing_input=not [f for f in oracle_fail if 'sprite-id-overflow' not in f[0]])
+                        no_failing_input=not oracle_fail)
         if errs and not mism and not v.violations:
             v.violation('correspondence evaluation failed: %s' % errs[0][:300], {'class': 'c20-corr-eval', 'broken': errs[:3]}, no_failing_input=True)
     if (not proofs_ok or not v.corr_ok) and not v.violations:
@@ -121,6 +121,6 @@ def main(argv):
         trusted_base=['modelled, not verified: Model/Ids.v restates gather_sprite_id_exprs / sequential_int_exprs / write_entry (anm), densify / sparsify_script_table / write_msg (msg), get_and_validate_timeline_indices (ecl_06), write_instance (std) by hand; gen/ids.py reads the start values and steps out of the source and matches the statement shapes',
                       'the constant evaluation of `<id expr> + i` is the wrapping i32 addition proved for C11',
                       'the harness\'s own walkers over ANM v7, MSG, TH07 ECL/timeline and TH12 STD files'],
-        assumptions=['sprite ids: the theorem is conditional on the writer not overflowing (ids reaching 0xFFFFFFFF panic in a debug build: open finding c20-oracle:anm-sprite-id-overflow; C20_sprite_ids_below_bound_no_overflow gives the guard)',
+        assumptions=['sprite ids: the theorem is conditional on the writer succeeding; with the wrapping writer of the current tree (fix b32efe8) it always does (C20_sprite_writer_is_total); for a non-wrapping writer C20_sprite_ids_below_bound_no_overflow gives the guard',
                      'a name that is both a sprite and a script (two enums) is not generated; stack-ECL sub names (strings) are outside this check',
                      'MSG offsets below 2^32; explicit ANM script numbers are not names and are not modelled'])
